@@ -20,11 +20,17 @@ DYADS = [-2.0, -1.0, -0.5, 0.0, 0.25, 1.0, 3.0, 0.125]
 def gen_spec(rng, variant, tier):
     deep = tier == 'thorough'
     n_endo = rng.choice([1, 1, 2, 2, 3] + ([4, 5] if deep else []))
+    if variant in ('solver', 'solver_faults') and rng.random() < 0.03:
+        n_endo = 0  # a model with no endogenous variables at all (every convergence test is vacuous)
     n_exo = rng.choice([0, 1, 1, 2])
+    if n_endo == 0:
+        n_exo = max(1, n_exo)
     endo = [f'Y{i}' for i in range(n_endo)]
     exo = [f'X{i}' for i in range(n_exo)]
     r = rng.random()
-    if r < 0.6 or (n_endo == 1 and r < 0.8):
+    if n_endo == 0:
+        check = [] if (r < 0.7 or not exo) else [exo[0]]
+    elif r < 0.6 or (n_endo == 1 and r < 0.8):
         check = list(endo)
     elif r < 0.8:
         check = rng.sample(endo, rng.randint(1, n_endo - 1))
@@ -73,6 +79,8 @@ def gen_opts(rng, faults, deep=False):
 
 def gen_deltas(rng, tol, n_endo, kind):
     """Per-variable increments realising one per-pass outcome."""
+    if n_endo == 0:
+        return []
     tl = abs(tol) if tol else 2.0**-10
     small = [0.0, tl / 2, -tl / 2, tl / 4, 0.0]
     big = [tl, -tl, tl * (1 + 2.0**-20), 2 * tl, 1.0, -1.0, tl * 4]
@@ -102,7 +110,7 @@ def gen_plan(rng, opts, spec, faults, idx):
         else:
             kind = rng.choice(['conv', 'conv', 'conv', 'conv', 'partial', 'move']) if k > m + 1 else 'conv'
         passes.append({'a': 'delta', 'd': gen_deltas(rng, opts['tol'], n_endo, kind)})
-    if rng.random() < 0.12 and passes:
+    if rng.random() < 0.12 and passes and n_endo:
         kk = rng.randrange(len(passes))
         passes[kk] = {'a': 'npunder', 'j': rng.randrange(n_endo), 'v': rng.choice(DYADS), 'd': passes[kk].get('d', [0.0] * n_endo)}
     plan = {'passes': passes}
@@ -126,7 +134,9 @@ def gen_plan(rng, opts, spec, faults, idx):
         else:
             kf = rng.randint(1, max(1, max_iter))
         kf = min(kf, L)
-        j = rng.randrange(n_endo)
+        if n_endo == 0 and kind in ('nan', 'inf', '-inf', 'npwarn'):
+            kind = 'exception'
+        j = rng.randrange(n_endo) if n_endo else 0
         if kind in ('nan', 'inf', '-inf'):
             v = [None] * n_endo
             v[j] = kind
@@ -175,6 +185,7 @@ def gen_solve_op(rng, spec, variant, idx, tier):
     plan, placed = gen_plan(rng, opts, spec, faults, idx)
     op = {
         'op': 'solve_period' if rng.random() < 0.35 else 'solve_t',
+        'np_ints': rng.random() < 0.15,  # positions / counts arrive as NumPy integers, as they do from array arithmetic
         't': t,
         'form': rng.choice([0, 0, 1]),
         'opts': opts,
@@ -264,7 +275,8 @@ def build(fsic, spec):
             from fsic.extensions import AliasMixin, PandasIndexFeaturesMixin, TracerMixin
 
             table = {'alias': AliasMixin, 'tracer': TracerMixin, 'pandas': PandasIndexFeaturesMixin}
-            attrs = {'ALIASES': {'ALT': spec['endo'][0], 'ALT2': 'ALT'}} if 'alias' in spec['mixins'] else {}
+            anyname = (spec['endo'] + spec['exo'] + ['status'])[0]
+            attrs = {'ALIASES': {'ALT': anyname, 'ALT2': 'ALT'}} if 'alias' in spec['mixins'] else {}
             cls = type('Mixed', tuple(table[k] for k in spec['mixins']) + (cls,), attrs)
         m = probes.new_scripted_instance(cls, span, spec['init'])
         return m, span, list(spec['endo']), list(spec['check']), list(spec['exo'])
@@ -336,11 +348,18 @@ def do_solve(m, span, spec, op, endo, check, exo, ctx, step):
     ctl.arm(op.get('plan'))
     out = {}
     try:
+        kw = dict(op['opts'])
+        t_arg = t
+        if op.get('np_ints'):
+            for k_ in ('min_iter', 'max_iter', 'offset'):
+                kw[k_] = np.int64(kw[k_])
+            t_arg = np.int64(t)
+            ctx.probe('numpy-integer-arguments')
         if op['op'] == 'solve_period':
             label = spans.label_forms(spec['span'], span, tn, op.get('form', 0))
-            v = m.solve_period(label, **op['opts'])
+            v = m.solve_period(label, **kw)
         else:
-            v = m.solve_t(t, **op['opts'])
+            v = m.solve_t(t_arg, **kw)
         out = {'kind': 'return', 'value': v}
     except Exception as e:
         out = {'kind': 'raise', 'exc': e}
